@@ -33,6 +33,7 @@ def _malformed(kind, n):
         "idx-n": 4,
         "idx-float": 1.5,
         "idx-array": np.array([1, 2]),
+        "idx-bool": True,
     }[kind]
 
 
@@ -64,6 +65,10 @@ def _harness(c, cfg):
         else:
             action = np.array(entries, dtype=float)
         inside = all(bool(e >= low) and bool(e <= high) for e in entries)
+    elif kind.startswith("idx-np"):
+        action = np.int64(int(kind[-1]))
+        inside = True
+        entries = None
     elif kind.startswith("idx-ok"):
         action = int(kind[-1])
         inside = True
@@ -118,7 +123,7 @@ def _harness(c, cfg):
     if kind == "sym":
         vec = entries
     else:
-        vec = ep.allocs[action]
+        vec = ep.allocs[int(action)]
     for con, w in zip(ep.space_contracts, vec):
         if isinstance(con, Cash):
             c.prove("C17:cash-entry-is-ignored", con not in got)
@@ -187,6 +192,14 @@ def configs(tier):
         add(N=4, M=0, action="idx-ok1", delay=d, inject_at=1, space="discrete", fractional=False)
     add(N=4, M=0, action="sym", delay=0, inject_at=1, two_contracts=True, cash_in_space=True, low=0.0, high=1.0)
     add(N=4, M=0, action="sym", delay=0, inject_at=1, space_margin=0.05)
+    # the cash contract in last / middle position of the space
+    add(N=4, M=0, action="sym", delay=0, inject_at=2, cash_in_space="last")
+    add(N=4, M=0, action="sym", delay=1, inject_at=1, cash_in_space="middle", two_contracts=True)
+    add(N=4, M=0, action="idx-ok3", delay=0, inject_at=1, space="discrete", cash_in_space="last", two_contracts=True)
+    add(N=4, M=0, action="2d", delay=0, inject_at=1)
+    add(N=4, M=0, action="inf", delay=1, inject_at=1)
+    add(N=4, M=0, action="idx-np2", delay=0, inject_at=1, space="discrete")
+    add(N=4, M=0, action="idx-np3", delay=1, inject_at=1, space="discrete")
     add(N=4, M=0, action="sym", delay=1, inject_at=1, two_contracts=True, cash_in_space=True, as_weights=False,
         low=-1.0, high=2.0)
     if tier == "thorough":
